@@ -43,7 +43,7 @@ func genCase(t *rapid.T) Case {
 	c := Case{Ops: []Op{{Kind: "add"}, {Kind: "add"}}}
 	for i := 0; i < n; i++ {
 		c.Ops = append(c.Ops, Op{
-			Kind:   rapid.SampledFrom([]string{"add", "add", "remove", "remove", "terminate", "call", "call", "call", "rawcall", "rawcall", "subscribe", "removebad", "race"}).Draw(t, "kind"),
+			Kind:   rapid.SampledFrom([]string{"add", "add", "remove", "remove", "terminate", "call", "call", "call", "rawcall", "rawcall", "subscribe", "removebad", "race", "race"}).Draw(t, "kind"),
 			Target: rapid.IntRange(0, 12).Draw(t, "target"),
 		})
 	}
@@ -292,11 +292,25 @@ func checkCase(c Case) error {
 			// two removals and a caller race on one live object
 			var wg sync.WaitGroup
 			var okCount int32
+			// the removers leave together: two owner-side Remove calls and, every
+			// other time, the remote terminate() of a client
+			gate := make(chan struct{})
 			for k := 0; k < 2; k++ {
 				wg.Add(1)
 				go func() {
 					defer wg.Done()
+					<-gate
 					if svc.Remove(o.id) == nil {
+						atomic.AddInt32(&okCount, 1)
+					}
+				}()
+			}
+			if op.Target%2 == 1 {
+				wg.Add(1)
+				go func() {
+					defer wg.Done()
+					<-gate
+					if o.generic.Terminate(o.id) == nil {
 						atomic.AddInt32(&okCount, 1)
 					}
 				}()
@@ -304,7 +318,8 @@ func checkCase(c Case) error {
 			var res string
 			var cerr error
 			wg.Add(1)
-			go func() { defer wg.Done(); res, cerr = o.proxy.Hello("race") }()
+			go func() { defer wg.Done(); <-gate; res, cerr = o.proxy.Hello("race") }()
+			close(gate)
 			finished := make(chan struct{})
 			go func() { wg.Wait(); close(finished) }()
 			select {
@@ -313,7 +328,7 @@ func checkCase(c Case) error {
 				return vt.Violationf("C16:race-hangs", "step %d: concurrent Remove x2 + call on object %d did not finish within %v", i, o.id, bound)
 			}
 			if okCount != 1 {
-				return vt.Violationf("C16:concurrent-remove", "step %d: %d of 2 concurrent Remove(%d) calls succeeded", i, okCount, o.id)
+				return vt.Violationf("C16:concurrent-remove", "step %d: %d concurrent removals of object %d (Remove x2, terminate every other time) succeeded instead of exactly one", i, okCount, o.id)
 			}
 			if cerr == nil && res != "r:race" {
 				return vt.Violationf("C16:wrong-answer", "step %d: racing call answered %q", i, res)
